@@ -166,6 +166,7 @@ func openSession(kind kit.Kind, fixture string, seed int64, tier string, reg fun
 var (
 	closeMaxMilli  atomic.Int64
 	closeAbandoned atomic.Int64
+	bgCloses       sync.WaitGroup
 )
 
 func (s *session) close() {
@@ -173,14 +174,21 @@ func (s *session) close() {
 		done := make(chan struct{})
 		c := s.c
 		start := time.Now()
-		go func() { c.Close(); close(done) }()
-		select {
-		case <-done:
-		case <-time.After(10 * time.Second):
-			closeAbandoned.Add(1)
-		}
-		if ms := time.Since(start).Milliseconds(); ms > closeMaxMilli.Load() {
-			closeMaxMilli.Store(ms)
+		bgCloses.Add(1)
+		go func() {
+			defer bgCloses.Done()
+			c.Close()
+			close(done)
+			if ms := time.Since(start).Milliseconds(); ms > closeMaxMilli.Load() {
+				closeMaxMilli.Store(ms)
+			}
+		}()
+		if s.kind != kit.Stdio { // the stdio client's Close may wait 5 s for its child; that wait runs in the background
+			select {
+			case <-done:
+			case <-time.After(10 * time.Second):
+				closeAbandoned.Add(1)
+			}
 		}
 		s.c = nil
 	}
@@ -574,6 +582,12 @@ func main() {
 
 	// --- descriptors ---
 	runDescriptors(r)
+	closed := make(chan struct{})
+	go func() { bgCloses.Wait(); close(closed) }()
+	select {
+	case <-closed:
+	case <-time.After(12 * time.Second):
+	}
 	r.Max("client_close_ms", closeMaxMilli.Load())
 	r.Count("client_close_abandoned_after_10s", closeAbandoned.Load())
 
